@@ -88,7 +88,14 @@ def run_harness(exe, pid, cases, timeout, extra_env=None):
     env = dict(os.environ)
     if extra_env:
         env.update(extra_env)
-    p = subprocess.run([exe, pid], input=inp, stdout=subprocess.PIPE, stderr=subprocess.PIPE, timeout=timeout, env=env)
+    try:
+        p = subprocess.run([exe, pid], input=inp, stdout=subprocess.PIPE, stderr=subprocess.PIPE, timeout=timeout, env=env)
+    except subprocess.TimeoutExpired as te:
+        class _P:
+            returncode = -9
+            stdout = te.stdout or b""
+            stderr = b"harness run exceeded %d s" % timeout
+        p = _P()
     res = [None] * len(cases)
     for line in p.stdout.decode().splitlines():
         if not line.strip():
@@ -296,6 +303,15 @@ def _run(plugin, pid, tier, seed, work, violations, known_lines, coverage, repla
         if sig in seen_sig:
             continue
         seen_sig.add(sig)
+        if getattr(plugin, "CONFIRM", False) and replay_case is None:
+            # timing-sensitive harnesses: a failure must repeat when the case is run again on its own
+            again, _ = run_harness(exe, getattr(plugin, "RUNNER", pid), [case], 600, getattr(plugin, "HARNESS_ENV", None))
+            if again[0] is not None and not again[0][1]:
+                b2 = coq_eval(plugin, [plugin.to_coq(case, again[0][0])], work, "confirm%d" % i)
+                if not b2:
+                    coverage["unconfirmed_failures"] = coverage.get("unconfirmed_failures", 0) + 1
+                    continue
+                obs = again[0][0]
         if getattr(plugin, "shrink", None) and replay_case is None:
             case, obs, code = shrink(plugin, pid, exe, work, case, obs, code, sig)
         expected = coq_expected(plugin, plugin.to_coq(case, obs), work)
@@ -315,17 +331,21 @@ def _run(plugin, pid, tier, seed, work, violations, known_lines, coverage, repla
     return 1 if violations else 0
 
 
-def shrink(plugin, pid, exe, work, case, obs, code, sig, budget=40):
-    """Greedy shrinking: accept a candidate if it still fails with the same signature."""
+def shrink(plugin, pid, exe, work, case, obs, code, sig, budget=40, seconds=90):
+    """Greedy shrinking: accept a candidate if it still fails with the same signature.  Bounded in time:
+    a broken implementation may make every case slow."""
     rounds = 0
     improved = True
-    while improved and rounds < budget:
+    t_end = time.time() + seconds
+    env = dict(getattr(plugin, "HARNESS_ENV", None) or {})
+    env["VERIF_CASE_TIMEOUT_S"] = "6"
+    while improved and rounds < budget and time.time() < t_end:
         improved = False
-        cands = list(plugin.shrink(case))[:64]
+        cands = list(plugin.shrink(case))[:32]
         if not cands:
             break
         rounds += 1
-        res, crashed = run_harness(exe, getattr(plugin, "RUNNER", pid), cands, 600, getattr(plugin, "HARNESS_ENV", None))
+        res, crashed = run_harness(exe, getattr(plugin, "RUNNER", pid), cands, max(10, int(t_end - time.time()) + 10), env)
         terms, idx = [], []
         for k, (c, r) in enumerate(zip(cands, res)):
             if r is None or r[1]:
